@@ -46,6 +46,7 @@ func runMapSites(c runCfg) error {
 				continue
 			}
 			var fn string
+			sortsAfter := map[ast.Stmt]string{}
 			ast.Inspect(f, func(n ast.Node) bool {
 				switch x := n.(type) {
 				case *ast.FuncDecl:
@@ -55,6 +56,20 @@ func runMapSites(c runCfg) error {
 						printer.Fprint(&b, p.Fset, x.Recv.List[0].Type)
 						fn = strings.TrimPrefix(b.String(), "*") + "." + fn
 					}
+				case *ast.BlockStmt:
+					// remember, for every statement of a block, the sort calls that follow it in the same block: a loop that
+					// collects keys is only as deterministic as the ordering applied afterwards
+					for k, st := range x.List {
+						var after bytes.Buffer
+						for _, later := range x.List[k+1:] {
+							var lb bytes.Buffer
+							printer.Fprint(&lb, token.NewFileSet(), later)
+							if strings.Contains(lb.String(), "sort.") {
+								after.WriteString("\n" + lb.String())
+							}
+						}
+						sortsAfter[st] = after.String()
+					}
 				case *ast.RangeStmt:
 					t := p.TypesInfo.TypeOf(x.X)
 					if t == nil {
@@ -63,6 +78,7 @@ func runMapSites(c runCfg) error {
 					if _, ok := t.Underlying().(*types.Map); ok {
 						var b bytes.Buffer
 						printer.Fprint(&b, token.NewFileSet(), x)
+						b.WriteString(sortsAfter[x])
 						h := sha256.Sum256(b.Bytes())
 						var xb bytes.Buffer
 						printer.Fprint(&xb, p.Fset, x.X)
